@@ -214,6 +214,50 @@ def shard_strings(arg):
     return sh
 
 
+# ------------------------------------------------- cross-curve call sequences
+
+def cross_curve_case(rec_a, rec_b, data):
+    """the same bytes loaded for curve A and then for curve B (same encoded
+    lengths) in ONE process: the verdict for B must be B's own (nothing
+    remembered from A may be reused), and then again for A"""
+    ca, cb = CurveInfo.get(rec_a), CurveInfo.get(rec_b)
+    out = []
+    for ci in (ca, cb, ca):
+        got = lib_from_string(ci.env.curve, data)
+        bad = judge(ci, data, got)
+        if bad:
+            out.append(("cross-curve:" + bad[0], bad[1], bad[2]))
+    return out[0] if out else None
+
+
+def shard_cross(arg):
+    rec_a, rec_b, xs = arg
+    ca, cb = CurveInfo.get(rec_a), CurveInfo.get(rec_b)
+    sh = Shard()
+    l = ca.plen
+    for x in xs:
+        xb = x.to_bytes(l, "big")
+        datas = [b"\x02" + xb, b"\x03" + xb]
+        for (px, py) in ca.group.points + cb.group.points:
+            if px == x:
+                yb = py.to_bytes(l, "big")
+                datas += [xb + yb, b"\x04" + xb + yb,
+                          bytes([6 + (py & 1)]) + xb + yb]
+        for data in datas:
+            sh.n += 1
+            sh.nt += 1
+            bad = cross_curve_case(rec_a, rec_b, data)
+            if bad:
+                sh.hist["fail:" + bad[0]] += 1
+                sh.violation("cross", bad[0],
+                             dict(rec_a=rec_a, rec_b=rec_b, data=data),
+                             bad[1], bad[2])
+    sh.sample(dict(curve_a=[rec_a["p"], rec_a["a"], rec_a["b"]],
+                   curve_b=[rec_b["p"], rec_b["a"], rec_b["b"]],
+                   sequence="load for A, then B, then A again"), cap=1)
+    return sh
+
+
 # ------------------------------------------------------- containers, objects
 
 def container_case(rec, kind, data):
@@ -572,6 +616,8 @@ def replay(check, case):
         bad = string_case(case["rec"], case["data"])
     elif check == "container":
         bad = container_case(case["rec"], case["kind"], case["data"])
+    elif check == "cross":
+        bad = cross_curve_case(case["rec_a"], case["rec_b"], case["data"])
     elif check == "object":
         bad = object_case(case["rec"], case["x"], case["y"], case["cls"],
                           case["z"])
@@ -638,6 +684,18 @@ def main(ctx):
         xs = list(range(t.p)) if not ctx.quick else list(range(0, t.p, 4))
         for ch in common.chunks(xs, 4):
             jobs.append((shard_objects, "point-objects", (rec, ch)))
+    # pairs of cofactor-1 curves over the same field: shared byte strings
+    same_p = {}
+    for t in catalog.all_toys():
+        if t.h == 1 and 257 <= t.p < 400:
+            same_p.setdefault(t.p, []).append(t)
+    pairs = [(v[0], v[1]) for v in same_p.values() if len(v) >= 2]
+    pairs = ctx.rotate(pairs, ctx.pick(2, 6))
+    for (ta, tb) in pairs:
+        for ch in common.chunks(list(range(ta.p)), ctx.jobs // 2 or 1):
+            jobs.append((shard_cross, "cross-curve-sequences",
+                         (ta.rec(), tb.rec(), ch)))
+        cover.append("%s x %s" % (ta.name, tb.name))
     rj = [(n, k) for n in catalog.REAL_NAMES for k in REAL_KINDS]
     for ch in common.chunks(rj, 2 * ctx.jobs):
         jobs.append((shard_real, "real-structured", ch))
